@@ -14,6 +14,10 @@
                                                   ConsumeBaseFee                              [meter]
       internal/handlers/msg_service_router.go     consumeMsgFees (every routed message, also those
                                                   dispatched by authz MsgExec)               [route]
+      internal/antewrapper/fee_gas_meter.go       ConsumeMsgFee: a handler records a fee of its own on the
+                                                  meter AFTER it succeeded and WITHOUT any sufficiency
+                                                  check (x/exchange flat fees for creating / accepting a
+                                                  payment, keeper/payments.go consumePaymentFee) [r_post]
       internal/handlers/msg_fee_invoker.go        MsgFeeInvoker.Invoke                        [fee_invoke]
       x/msgfees/keeper/keeper.go                  CalculateAdditionalFeesToBePaid [calc], ConvertDenomToHash
                                                   [convert], DeductFeesDistributions         [invoke_moves]
@@ -109,10 +113,14 @@ Record custom := { cu_coin : coin; cu_recipient : option acct; cu_bips : option 
 (* what a routed message does once its fee has been consumed *)
 Inductive action :=
 | ASend (from to : acct) (c : coins)      (* bank MsgSend *)
-| ANop (ok : bool).                       (* no coin movement; ok=false: the handler (or the authz
+| ANop (ok : bool)                        (* no coin movement; ok=false: the handler (or the authz
                                              authorization in front of it) fails *)
+| AExt (ok : bool) (ms : list move).      (* a handler outside the fee pipeline (x/exchange payments):
+                                             ok=false: it fails; else it moves the given coins *)
 
-Record routed := { r_type : mtype; r_custom : option custom; r_action : action }.
+(* [r_post]: the fee the handler itself records on the fee gas meter once it has succeeded
+   (antewrapper.ConsumeMsgFee with recipient ""; [] when there is none) *)
+Record routed := { r_type : mtype; r_custom : option custom; r_action : action; r_post : coins }.
 
 (* a top-level message and, for an authz MsgExec, the messages it dispatches through the same
    router, in execution (pre-) order *)
@@ -288,14 +296,18 @@ Definition route (cfg : config) (t : tx) (st : sheet * meter) (r : routed) : opt
       match m1 with
       | None => None
       | Some m' =>
-          match r_action r with
-          | ANop ok => if ok then Some (b, m') else None
-          | ASend from to c =>
-              if is_zero c then None                                (* MsgSend.ValidateBasic *)
-              else match exec_move b {| mv_from := from; mv_to := to; mv_coins := c |} with
-                   | Some b' => Some (b', m')
-                   | None => None
-                   end
+          match (match r_action r with
+                 | ANop ok => if ok then Some b else None
+                 | ASend from to c =>
+                     if is_zero c then None                         (* MsgSend.ValidateBasic *)
+                     else exec_move b {| mv_from := from; mv_to := to; mv_coins := c |}
+                 | AExt ok ms => if ok then exec_moves b ms else None
+                 end) with
+          | None => None
+          | Some b' =>
+              (* ConsumeMsgFee by the handler: no check against the declared fee here *)
+              Some (b', if is_zero (r_post r) then m'
+                        else {| mt_module := r_post r ++ mt_module m'; mt_recips := mt_recips m' |})
           end
       end
   end.
@@ -390,7 +402,7 @@ Definition run (s : state) (ops : list op) : state := fold_left (fun st o => fst
 (** ** Specification-level quantities (closed forms the theorems and the checker compare against) *)
 
 (* the fee components a routed message incurs: (coin, recipient basis points, recipient) *)
-Definition charges (cfg : config) (r : routed) : list (coin * Z * option acct) :=
+Definition charges_pre (cfg : config) (r : routed) : list (coin * Z * option acct) :=
   (match lookup_fee (schedule cfg) (r_type r) with
    | Some e => if 0 <? snd (fe_coin e) then [(fe_coin e, fe_bips e, fe_recipient e)] else []
    | None => []
@@ -402,6 +414,10 @@ Definition charges (cfg : config) (r : routed) : list (coin * Z * option acct) :
                 end
    | None => []
    end).
+(* ... plus what the handler records itself; the mempool check and the router's running check only
+   know [charges_pre] *)
+Definition charges (cfg : config) (r : routed) : list (coin * Z * option acct) :=
+  charges_pre cfg r ++ map (fun c => (c, 0, None)) (r_post r).
 
 Definition ch_amount (d : denom) (ch : coin * Z * option acct) : Z :=
   let '((dn, amt), _, _) := ch in if N.eqb d dn then amt else 0.
@@ -423,6 +439,8 @@ Definition zsum {A} (f : A -> Z) (l : list A) : Z := fold_right (fun x acc => f 
 
 Definition additional (cfg : config) (rs : list routed) (d : denom) : Z :=
   zsum (ch_amount d) (flat_map (charges cfg) rs).
+Definition additional_pre (cfg : config) (rs : list routed) (d : denom) : Z :=
+  zsum (ch_amount d) (flat_map (charges_pre cfg) rs).
 Definition share (cfg : config) (rs : list routed) (a : acct) (d : denom) : Z :=
   zsum (ch_share a d) (flat_map (charges cfg) rs).
 Definition shares_total (cfg : config) (rs : list routed) (d : denom) : Z :=
@@ -433,6 +451,7 @@ Definition msg_moves (rs : list routed) : list move :=
   flat_map (fun r => match r_action r with
                      | ASend f t c => [{| mv_from := f; mv_to := t; mv_coins := c |}]
                      | ANop _ => []
+                     | AExt _ ms => ms
                      end) rs.
 Definition debit_of (ms : list move) (a : acct) (d : denom) : Z :=
   zsum (fun m => if N.eqb a (mv_from m) then amount_of (mv_coins m) d else 0) ms.
